@@ -457,7 +457,11 @@ func (c *Ctx) allSumNil(v ssa.Value, seen map[ssa.Value]bool) bool {
 // macSpanRules: C02 rule 4 (receive side) / C06 rule 3 (send side uses its own variant).
 func (c *Ctx) macSpanRules(r *Report, prefix string, a *ikeAnchors, receive bool) {
 	rule := prefix + "mac-span"
-	r.Rule(rule, "the byte string fed to the HMAC between Reset and Sum is the whole datagram from its first octet up to, but excluding, the last L octets", 4)
+	floor := 4
+	if !receive {
+		floor = 1
+	}
+	r.Rule(rule, "the byte string fed to the HMAC between Reset and Sum is the whole datagram from its first octet up to, but excluding, the last L octets", floor)
 	ci := a.calculateIntegrity
 	// exactly one Write per arm, of the unsliced originData parameter
 	nW, okW := 0, true
